@@ -1,5 +1,5 @@
 (* C15/Driver.v — entry points of the correspondence run (extracted to OCaml). *)
-From RM Require Import C15.Model C15.Schema.
+From RM Require Import C15.Model C15.Schema C15.Widths.
 From RM Require C19.Model.
 Open Scope Z_scope.
 
@@ -22,9 +22,13 @@ Definition flip_confidence_bits (b : flip) : Z :=
        C19.Model.d_nearby := bf_nearby b; C19.Model.d_poison := bf_poison b |}.
 
 (* the hypotheses of c15_schema_conformance, evaluated on a real process state *)
-Definition wf_ok (s : state) : bool := wf_state s.
+Definition wf_ok (s : state) : bool := wf_state s && regs_named_ok (s_registers s).
 
 (* the theorem's conclusion evaluated on the REAL output: the model's parser reads the real document and the
    Gallina checker judges it against the schema regenerated from json-schema.md *)
 Definition real_conforms (doc : list Z) : bool :=
   match parse doc with Some j => conforms DOC_SCHEMA j | None => false end.
+
+(* c15_address_widths' conclusion evaluated on the REAL output *)
+Definition real_widths (w : pwidth) (doc : list Z) : bool :=
+  match parse doc with Some j => widths w [] j | None => false end.
